@@ -145,6 +145,21 @@ func delivered(f File, gunzip bool) (data []byte, fails bool) {
 }
 
 func genText(t *rapid.T) []byte {
+	if rapid.IntRange(0, 24).Draw(t, "aligned") == 0 {
+		// fixed-length records filling 1-2 read buffers (128 KiB) exactly (or off by a few records)
+		l := rapid.SampledFrom([]int{32, 64, 128}).Draw(t, "reclen")
+		total := rapid.SampledFrom([]int{131072, 131072 + 5*l, 262144}).Draw(t, "total")
+		var sb bytes.Buffer
+		for n := 0; sb.Len()+l <= total; n++ {
+			head := fmt.Sprintf("k%d %d ", n%6, n%9)
+			sb.WriteString(head)
+			for j := len(head); j < l-1; j++ {
+				sb.WriteByte("abcxyz012"[(n+j)%9])
+			}
+			sb.WriteByte('\n')
+		}
+		return sb.Bytes()
+	}
 	n := rapid.IntRange(0, 40).Draw(t, "nlines")
 	if rapid.IntRange(0, 6).Draw(t, "big") == 0 {
 		n = rapid.IntRange(40, 200).Draw(t, "nlines2")
